@@ -202,6 +202,11 @@ func (e *Exec) callBuiltin(caller *frame, pos token.Pos, fn *ssa.Builtin, args [
 	case "recover":
 		return e.doRecover(caller)
 
+	case "ssa:deferstack":
+		// the defer list of the calling function: defers inside range-over-func
+		// bodies are pushed onto it
+		return &deferStackRef{caller}
+
 	case "ssa:wrapnilchk":
 		recv := args[0]
 		if p, ok := recv.(*Value); ok && p == nil {
@@ -213,7 +218,7 @@ func (e *Exec) callBuiltin(caller *frame, pos token.Pos, fn *ssa.Builtin, args [
 	case "panic":
 		panic(targetPanic{args[0], "panic@" + e.pos(pos)})
 	}
-	unsupported("builtin %s", fn.Name())
+	unsupported("builtin %s (in %s)", fn.Name(), caller.fn.String())
 	return nil
 }
 
@@ -274,3 +279,6 @@ func roundupsize(size int64) int64 {
 	const page = 8192
 	return (size + page - 1) / page * page
 }
+
+// deferStackRef is the value of ssa:deferstack().
+type deferStackRef struct{ fr *frame }
